@@ -62,7 +62,7 @@ def outName : Outcome → String
 def csMod : Nat := 2147483647
 
 def checksum (tr : List Event) : Nat :=
-  tr.foldl (fun h e => (h * 1000003 + e.gasBefore % csMod + 3 * (e.cost % csMod) + 5 * e.memLen + 7 * e.depth + 11 * e.stack + 13 * e.op) % csMod) 0
+  tr.foldl (fun h e => (h * 1000003 + e.gasBefore % csMod + 3 * (e.cost % csMod) + 5 * e.memLen + 7 * e.depth + 11 * e.stack + 13 * e.op + 17 * (if e.ro then 1 else 0)) % csMod) 0
 
 def epochName : Epoch → String
   | .frontier => "frontier" | .homestead => "homestead" | .byzantium => "byzantium" | .constantinople => "constantinople" | .spring => "spring"
